@@ -2,6 +2,7 @@ import Aqv.Base.Proto
 import Aqv.Model.Rlp
 import Aqv.Model.RlpTyped
 import Aqv.Model.RlpStream
+import Aqv.Model.RlpRaw
 open Aqv Aqv.Rlp Aqv.Proto
 
 /-- parse the rendering produced by `Item.render` (and by the Go harness): `s<hex>` | `[i,i,...]`. -/
@@ -226,6 +227,28 @@ def sdecOut (bs : Bytes) : String :=
     | .error e => "err:" ++ errName e
   (if tokS.startsWith "err" then "err" else "ok") ++ " S=" ++ tokS ++ " B=" ++ tokB
 
+/-! ### raw.go outcomes -/
+
+def rerrName : Aqv.RlpRaw.RErr → String
+  | .unexpectedEOF => "unexpectedEOF" | .canonSize => "canonSize" | .valueTooLarge => "valueTooLarge"
+  | .expectedString => "expectedString" | .expectedList => "expectedList" | .fuel => "fuel"
+
+/-- `<ok|err> split=<tok> str=<tok> list=<tok>`; tok = `ok:<K>:<content>:<rest>` / `ok:<content>:<rest>` | `err:<kind>` | `panic`. -/
+def rsplitOut (bs : Bytes) : String :=
+  let kname (k : Aqv.RlpRaw.K) : String := match k with | .byte => "Byte" | .string => "String" | .list => "List"
+  let t1 :=
+    match Aqv.RlpRaw.split bs with
+    | .ok (k, c, r) => "ok:" ++ kname k ++ ":" ++ hexOrDash c ++ ":" ++ hexOrDash r
+    | .err e => "err:" ++ rerrName e
+    | .panic => "panic"
+  let two (o : Aqv.RlpRaw.Out (Bytes × Bytes)) : String :=
+    match o with
+    | .ok (c, r) => "ok:" ++ hexOrDash c ++ ":" ++ hexOrDash r
+    | .err e => "err:" ++ rerrName e
+    | .panic => "panic"
+  (if t1.startsWith "ok" then "ok" else "err") ++ " split=" ++ t1 ++ " str=" ++ two (Aqv.RlpRaw.splitString bs) ++
+    " list=" ++ two (Aqv.RlpRaw.splitList bs)
+
 def handle (l : String) : String :=
   let (inp, go) := splitCase l
   match fields inp with
@@ -290,6 +313,26 @@ def handle (l : String) : String :=
         | _ => "bad-op"
       -- both reject with different error kinds: the correspondence is broken, the property is not
       verdict m go (go.startsWith "err" && m.startsWith "err") "stream-primitive-differs"
+  | ["rsplit", hex] =>
+    -- Go-shaped raw.go: Split / SplitString / SplitList with error kinds and the panic outcome
+    match bytesOfHex hex with
+    | none => "bad-op\tspec-ok"
+    | some bs =>
+      let m := rsplitOut bs
+      -- Spec: never a panic; both rejecting with different error kinds only breaks the correspondence
+      let goPanics := (go.splitOn "panic").length > 1
+      verdict m go (!goPanics && go.startsWith "err" && m.startsWith "err") "raw-split-panics-or-differs"
+  | ["cv", hex] =>
+    match bytesOfHex hex with
+    | none => "bad-op\tspec-ok"
+    | some bs =>
+      let m :=
+        match Aqv.RlpRaw.countValues bs with
+        | .ok n => "ok " ++ toString n
+        | .err e => "err " ++ rerrName e
+        | .panic => "panic"
+      let goPanics := (go.splitOn "panic").length > 1
+      verdict m go (!goPanics && go.startsWith "err" && m.startsWith "err") "countvalues-panics-or-differs"
   | ["tdec", td, hex] =>
     match parseTyStr td, bytesOfHex hex with
     | some ty, some bs =>
